@@ -495,6 +495,9 @@ class Fxp():
             if self.scaled:
                 self.set_val((_old_val / 2**_old_n_frac) * self.scale + self.bias)
             else:
+                if self.n_word >= _n_word_max and _old_val.dtype != object:
+                    # (the shifted codes of a word of 64 bits and more do not fit the machine integer they come from)
+                    _old_val = _old_val.astype(object)
                 self.set_val(_old_val * 2**(self.n_frac - _old_n_frac), raw=True)
         else:
             self.set_val(_old_val, raw=True)
